@@ -271,6 +271,11 @@ class _FuncAnalysis(object):
                 self.S.dwrites.setdefault((r, p), site)
 
     def free(self, locs, site):
+        # a variable that may hold either a caller's object or a fresh window/owner created here
+        # (parameter re-assignment with save/restore, `if (window_used) mzd_free_window(A)`): the
+        # flow-insensitive set is ambiguous; the typestate engine (E1) decides those paths.
+        if any(p == WIN or r[0] == 'fresh' for (r, p) in locs) and any(r[0] == 'p' and p != WIN for (r, p) in locs):
+            return
         for (r, p) in locs:
             if r[0] in ('local', 'fresh'):
                 continue
@@ -321,7 +326,7 @@ class _FuncAnalysis(object):
         if name in ('mzd_init_window', 'mzd_init_window_const', 'mzp_init_window'):
             return frozenset((r, WIN) for (r, p) in argp[0]) if argp else frozenset()
         if name in ('mzd_free', 'mzd_free_window', 'mzp_free_window', 'mzp_free'):
-            self.free(frozenset(l for l in argp[0] if l[1] != WIN), site)
+            self.free(argp[0], site)
             return frozenset()
         callee = self.E.prog.resolve(name, self.f)
         if callee is not None and callee.body is not None:
